@@ -364,6 +364,41 @@ func (c Complex) Geom(t *rapid.T, typ string, depth int, disjointMembers bool, s
 		if emptyRoll {
 			return g
 		}
+		switch rapid.IntRange(0, 5).Draw(t, "mlskind") {
+		case 0: // star: 2..5 open lines with one end at a common vertex (mod-2 rule with 2, 3, 4, 5 ends)
+			ctr := c.drawPoint(t)
+			for i := rapid.IntRange(2, 5).Draw(t, "rays"); i > 0; i-- {
+				o := c.drawPoint(t)
+				if o == ctr {
+					o = ipt{ctr[0] + 2, ctr[1]}
+				}
+				l := gm.G{T: gm.LineString, Co: gm.Fs(float64(ctr[0]), float64(ctr[1]), float64(o[0]), float64(o[1]))}
+				if rapid.Bool().Draw(t, "rayreversed") {
+					l.Co = gm.Fs(float64(o[0]), float64(o[1]), float64(ctr[0]), float64(ctr[1]))
+				}
+				g.Mem = append(g.Mem, l)
+			}
+			return g
+		case 1: // a closed circuit cut into open lines: every end point is shared by two lines (all ends cancel)
+			n := rapid.IntRange(3, 5).Draw(t, "circuit")
+			pts := make([]ipt, n)
+			for i := range pts {
+				pts[i] = c.drawPoint(t)
+			}
+			distinct := true
+			for i := range pts {
+				if pts[i] == pts[(i+1)%n] {
+					distinct = false
+				}
+			}
+			if distinct {
+				for i := range pts {
+					a, b := pts[i], pts[(i+1)%n]
+					g.Mem = append(g.Mem, gm.G{T: gm.LineString, Co: gm.Fs(float64(a[0]), float64(a[1]), float64(b[0]), float64(b[1]))})
+				}
+				return g
+			}
+		}
 		for i := rapid.IntRange(1, 3).Draw(t, "nml"); i > 0; i-- {
 			if rapid.IntRange(0, 9).Draw(t, "emptymember") == 0 {
 				g.Mem = append(g.Mem, gm.G{T: gm.LineString})
